@@ -42,7 +42,7 @@ func Main() {
 		r.Cases("corpus", len(scenarios()), core.Opts{Workers: 8}, guarded(180, corpus))
 	}
 	if want("history") {
-		r.Cases("history", r.N(300, 20000), core.Opts{Workers: 16}, guarded(180, history))
+		r.Cases("history", r.N(300, 10000), core.Opts{Workers: 16}, guarded(180, history))
 	}
 
 	// concurrent histories under the race detector, in child processes
@@ -75,10 +75,10 @@ func Main() {
 		}
 	}
 	if want("concurrent") {
-		r.Cases("concurrent", r.N(8, 300), core.Opts{Race: true, Procs: r.N(4, 8), StallSec: 400, Env: env}, withRaces(concurrent))
+		r.Cases("concurrent", r.N(8, 200), core.Opts{Race: true, Procs: r.N(4, 8), StallSec: 400, Env: env}, withRaces(concurrent))
 	}
 	if want("blacklist-refresh") {
-		r.Cases("blacklist-refresh", r.N(2, 10), core.Opts{Race: true, Procs: 2, StallSec: 400, Env: env}, withRaces(blacklistRefresh))
+		r.Cases("blacklist-refresh", r.N(2, 6), core.Opts{Race: true, Procs: 2, StallSec: 400, Env: env}, withRaces(blacklistRefresh))
 	}
 	if scratch != "" {
 		os.RemoveAll(scratch) // Finish exits the process: no defer
